@@ -18,7 +18,7 @@ CONFIG = {
                    "order' is judged (open reading, DESIGN C12); a directory matched only by 'name/' is listed empty, as "
                    "pathspec defines."),
     "technique": "deterministic simulation: seeded pattern/history exploration + faults in ignored files, read-log and record oracles",
-    "quick": {"runs": 720, "budget_s": 90},
+    "quick": {"runs": 1000, "budget_s": 120},
     "thorough": {"runs": 7000, "budget_s": 540},
     "rule": ("one run = world with ignorable entries + 2..6 creates adding patterns + a fault phase on ignored files with "
              "verify/diff/verify -dh before and after; one evaluation = one judged command. Distinct = (command, #patterns, "
